@@ -673,6 +673,24 @@ type c08KeyCase struct {
 // coordinates as big.Int.Bytes() gives them when Trim is set (that is what
 // NewKeyFromPublic stores).
 func (c *c08KeyCase) libKey() *cose.Key {
+	if c.Spec.Kty == 4 && len(c.Spec.Extra) == 0 && c.LabelSp == rc.SpInt64 && len(c.Spec.SymK)%2 == 0 {
+		// through the constructor (half of the plain symmetric keys)
+		k := cose.NewKeySymmetric(append([]byte{}, c.Spec.SymK...))
+		if c.Spec.Kid != nil {
+			k.ID = append([]byte{}, c.Spec.Kid...)
+		}
+		if c.Spec.BaseIV != nil {
+			k.BaseIV = append([]byte{}, c.Spec.BaseIV...)
+		}
+		if c.Spec.HasOps {
+			k.Ops = []cose.KeyOp{}
+			for _, o := range c.Spec.Ops {
+				k.Ops = append(k.Ops, cose.KeyOp(o))
+			}
+		}
+		stats.Class("key/symmetric-through-constructor")
+		return k
+	}
 	k := &cose.Key{Type: cose.KeyType(c.Spec.Kty), Params: map[any]any{}}
 	v := c.Spec.val()
 	entries := v.M
